@@ -60,7 +60,7 @@ func (p *Path) callBuiltin(fn *ssa.Builtin, args []Value, site ssa.Instruction) 
 			for i := 0; i < n; i++ {
 				storeVal(&dst[i], tmp[i])
 			}
-			return tb.BV(uint64(n), 64)
+			return p.i64(uint64(n))
 		case Str:
 			if src.sym != nil {
 				panic(p.unsupported("copy from structured string"))
@@ -69,38 +69,38 @@ func (p *Path) callBuiltin(fn *ssa.Builtin, args []Value, site ssa.Instruction) 
 			for i := 0; i < n; i++ {
 				dst[i] = src.b[i]
 			}
-			return tb.BV(uint64(n), 64)
+			return p.i64(uint64(n))
 		}
 	case "len":
 		switch x := args[0].(type) {
 		case Slice:
-			return tb.BV(uint64(len(x)), 64)
+			return p.i64(uint64(len(x)))
 		case Str:
 			if x.sym != nil {
 				if r, ok := p.renderStr(x); ok {
-					return tb.BV(uint64(len(r.b)), 64)
+					return p.i64(uint64(len(r.b)))
 				}
 				panic(p.unsupported("len of structured string " + x.sym.kind))
 			}
-			return tb.BV(uint64(len(x.b)), 64)
+			return p.i64(uint64(len(x.b)))
 		case *Map:
-			return tb.BV(uint64(x.len()), 64)
+			return p.i64(uint64(x.len()))
 		case Array:
-			return tb.BV(uint64(len(x)), 64)
+			return p.i64(uint64(len(x)))
 		case Ptr:
 			if x == nil {
-				return tb.BV(0, 64)
+				return p.i64(0)
 			}
-			return tb.BV(uint64(len((*x).(Array))), 64)
+			return p.i64(uint64(len((*x).(Array))))
 		case *Opaque:
 			panic(p.unsupported("len of chan"))
 		}
 	case "cap":
 		switch x := args[0].(type) {
 		case Slice:
-			return tb.BV(uint64(cap(x)), 64)
+			return p.i64(uint64(cap(x)))
 		case Array:
-			return tb.BV(uint64(len(x)), 64)
+			return p.i64(uint64(len(x)))
 		}
 	case "delete":
 		m := args[0].(*Map)
@@ -130,9 +130,12 @@ func (p *Path) callBuiltin(fn *ssa.Builtin, args []Value, site ssa.Instruction) 
 		for _, a := range args[1:] {
 			at := a.(*Term)
 			var lt *Term
-			if signed {
+			switch {
+			case at.sort.K == KInt:
+				lt = tb.ILt(at, r)
+			case signed:
 				lt = tb.Slt(at, r)
-			} else {
+			default:
 				lt = tb.Ult(at, r)
 			}
 			if fn.Name() == "max" {
